@@ -229,6 +229,12 @@ def fix_one(beh):
     try:
         j = pyb.flat_json(beh['ed'], beh['ids'], beh['nsub'], beh['cmp'], fm94.flat_values(beh), ident=fm94.ident_of(beh))
         b0 = Encoder().process(j).serialized_bytes
+        if beh.get('scoped'):
+            # a round trip with template compilation on ONE side only (Scope.Scoped programs): what a compiling encoder writes is
+            # what the plain encoder writes, so a plain decoder reads back what was handed over
+            bc = Encoder(compiled_template_cache_max=2).process(j).serialized_bytes
+            if bc != b0:
+                return (('fixpoint', 'compiled-encoder', 'bytes-differ', 'cmp' if beh['cmp'] else 'unc'), 'the compiling encoder writes other bytes than the plain one')
         d0 = Decoder().process(b0)
         b1 = Encoder().process(json.loads(json.dumps(FlatJsonRenderer().render(d0), **_dumps_kw()))).serialized_bytes
     except Exception as e:
